@@ -14,18 +14,18 @@ contract(SXS + "._indentation_spaces", params={"indent_level": Int}, returns=Str
 contract(SXS + "._write_lines_buffer", params={},
     ensures=["%s == old(%s)" % (OUT, TOTAL), "self._lines_buffer == old(self._lines_buffer)",
              "implies(self._string_return, self.__file__ == old(self.__file__))", "implies(not self._string_return, self._string_result == old(self._string_result))"],
-    raises=[], modifies=["ShexSer._string_result[self]", "ShexSer.__file__[self]"], assume_only=True, verify=False, props=["C18", "C05", "C13", "C11", "C12"],
+    raises=[], modifies=["ShexSer._string_result[self]", "ShexSer.__file__[self]"], assume_only=True, verify=False, props=["C18", "C05", "C13", "C11", "C12", "C01", "C02"],
     note="ASSUMED for the file sink: appending every buffered line to the file appends their concatenation (with-statement / file I/O is outside the subset); "
          "the string sink is verified below")
 contract(SXS + "._write_lines_buffer@string", params={}, requires=["self._string_return"],
     ensures=["self._string_result == old(self._string_result) + joined(self._lines_buffer)", "self._lines_buffer == old(self._lines_buffer)"],
-    raises=[], modifies=["ShexSer._string_result[self]"], props=["C18", "C05", "C13", "C11", "C12"], note="string sink: the body is verified (the file branch is unreachable under the precondition)")
+    raises=[], modifies=["ShexSer._string_result[self]"], props=["C18", "C05", "C13", "C11", "C12", "C01", "C02"], note="string sink: the body is verified (the file branch is unreachable under the precondition)")
 contract(SXS + "._write_line", params={"a_line": Str, "indent_level": Int}, requires=["indent_level >= 0"],
     ensures=["%s == old(%s) + indent_of(indent_level) + a_line + '\\n'" % (TOTAL, TOTAL), "len(self._lines_buffer) < 5000"],
-    raises=[], modifies=["ShexSer._lines_buffer[self]", "ShexSer._string_result[self]", "ShexSer.__file__[self]"], props=["C18", "C05", "C13", "C11", "C12"],
+    raises=[], modifies=["ShexSer._lines_buffer[self]", "ShexSer._string_result[self]", "ShexSer.__file__[self]"], props=["C18", "C05", "C13", "C11", "C12", "C01", "C02"],
     note="buffer invariant: sink text ++ pending lines grows by exactly the written line, also across the 5000-line flush")
 contract(SXS + "._flush", params={}, ensures=["%s == old(%s)" % (OUT, TOTAL)], raises=[],
-    modifies=["ShexSer._string_result[self]", "ShexSer.__file__[self]"], props=["C18", "C05", "C13", "C11", "C12"])
+    modifies=["ShexSer._string_result[self]", "ShexSer.__file__[self]"], props=["C18", "C05", "C13", "C11", "C12", "C01", "C02"])
 contract(SXS + "._write_line@canary", params={"a_line": Str, "indent_level": Int}, requires=["indent_level >= 0"],
     ensures=["%s == old(%s) + a_line + '\\n'" % (TOTAL, TOTAL)], modifies=["ShexSer._lines_buffer[self]", "ShexSer._string_result[self]", "ShexSer.__file__[self]"],
     props=["C18"], canary=True)
